@@ -17,7 +17,7 @@
     send      self._sock.sendto(pdu)                      datagram carries the value loaded last
     recv      self._q.get() if not self._q.empty() else self._sock.recvfrom()   (socket.timeout if nothing there)
               rx_filter(header, rx_data): request sequence and command must match
-    requeue   self._q.put(rx_data)                        (filter said no)
+    requeue   (filter said no: the frame is dropped; before fix e9c3a5d it was put back into `_q`)
     release   leaving the `with` block; then `return rx_data[6:-1]` or `raise RetryError`
 
   The BMC answers every datagram at once: the reply (tagged with the serial number of the
@@ -32,6 +32,43 @@
 import PyIpmi.Spec.Threads
 namespace PyIpmi.Threads
 open PyIpmi.Spec.Threads (WEv)
+
+/-- The concurrency-relevant shape of `rmcp.py` / `session.py` as the translator
+(`harness/translate/threads.py`) reads it from the AST on every run (`Gen/Threads.lean`). -/
+structure Shape where
+  lockBlocks : Nat                  -- `with self.transaction_lock:` blocks in `_send_and_receive`
+  incFirst : Bool                   -- first statement is `self._inc_sequence_number()`
+  incCalls : Nat
+  ioOutsideLock : Nat               -- socket / queue accesses of `_send_and_receive` outside the block
+  sendsInLock : Nat                 -- `self._send_ipmi_msg` calls inside the block
+  recvsInLock : Nat                 -- `self._receive_ipmi_msg` calls inside the block
+  qGetInLock : Nat                  -- `self._q.get` calls inside the block
+  qPut : Nat                        -- `self._q.put` calls (re-queuing)
+  packInSar : Nat                   -- `.pack(` calls in `_send_and_receive` itself (packing outside `_send_ipmi_msg`)
+  packInSend : Nat                  -- `.pack(` calls in `_send_ipmi_msg`
+  sendBuildsIpmiMsg : Bool          -- `_send_ipmi_msg` builds `IpmiMsg(self._session)` itself
+  packIncs : Nat                    -- `increment_sequence_number()` calls in `IpmiMsg.pack`
+  packIncGuardedByActivated : Bool
+  seqAdd : Nat                      -- `_inc_sequence_number`: (n + seqAdd) % seqMod
+  seqMod : Nat
+  keepAliveLocked : Bool            -- the callable given to `call_repeatedly` reaches `_send_and_receive`
+  rawLocked : Bool                  -- `send_and_receive_raw` reaches `_send_and_receive`
+  msgLocked : Bool                  -- `send_and_receive` reaches `_send_and_receive`
+  sessAdd : Nat                     -- `Session.increment_sequence_number`: += sessAdd; if > sessLimit: = sessWrapTo
+  sessLimit : Nat
+  sessWrapTo : Nat
+deriving DecidableEq, Repr
+
+/-- The shape the step function below hard-wires: the IPMB sequence number is bumped and read before
+the lock (`idle`, `incStore`, `hdrLoad`), one lock block (`acquire` … `release`) holds the session
+sequence bump and the packing (`ssLoad` … `ssHdr`, inside `_send_ipmi_msg`), the one transmission
+(`send`) and the reception (`recv`, reading `_q` first); nothing is put back into `_q`; every caller,
+the keep-alive included, runs this program. -/
+def Shape.expected : Shape :=
+  { lockBlocks := 1, incFirst := true, incCalls := 1, ioOutsideLock := 0, sendsInLock := 1, recvsInLock := 1,
+    qGetInLock := 1, qPut := 0, packInSar := 0, packInSend := 1, sendBuildsIpmiMsg := true, packIncs := 1,
+    packIncGuardedByActivated := true, seqAdd := 1, seqMod := 64, keepAliveLocked := true, rawLocked := true,
+    msgLocked := true, sessAdd := 1, sessLimit := 0xffffffff, sessWrapTo := 1 }
 
 /-- A reply waiting in the socket (or in `Rmcp._q`). -/
 structure Reply where
@@ -119,9 +156,8 @@ def stepThr (s : Sys) (t : Nat) (th : Thr) : Option Sys :=
           { th with got := some r, pc := if r.rq = th.hdr ∧ r.cmd = th.cmd then .release else .requeue })
       | [] => some (s.upd t { th with got := none, pc := .release })
   | .requeue =>
-    match th.got with
-    | some r => some ({ s with q := s.q ++ [r] }.upd t { th with got := none, pc := .release })
-    | none => some (s.upd t { th with pc := .release })
+    -- since the fix of C04 (e9c3a5d) a frame the filter rejects is dropped, not put back into `_q`
+    some (s.upd t { th with got := none, pc := .release })
   | .release =>
     some ({ s with lock := none }.upd t
       (afterCall th (match th.got with
@@ -158,7 +194,7 @@ def labelThr (s : Sys) (th : Thr) : Option Act :=
     | r :: _, _ => some (.qget r.serial)
     | [], r :: _ => some (.rx r.serial)
     | [], [] => some .rxTimeout
-  | .requeue => match th.got with | some r => some (.qput r.serial) | none => some .tau
+  | .requeue => some .tau
   | .release => some .rel
   | .done => none
 
